@@ -154,6 +154,31 @@ CLAIMED["C19"] = (
     "Extension-added input fields are optional; type order is compared after sorting.",
     "DESIGN.md 3/C19",
 )
+CLAIMED["C02"] = (
+    "reference-model oracle: the specification's ExecuteRequest (R5) written over generated document trees, "
+    "schema models and a deterministic data oracle shared with harness resolvers; request histories on shared "
+    "schema/document objects",
+    "For generated (schema, validated document, operation, variables, data oracle with planted faults) the "
+    "formatted data equals the reference's including key order at every level, the multiset of error paths is "
+    "equal, every resolver received exactly the reference's coerced argument values in the reference's call "
+    "order (through out_name too), rejected variables give an errors-only response, and repeating a request "
+    "after other requests on the same objects gives the identical response; print_schema never changes.",
+    "R5/R4 are my reading of the specification; leaf values are restricted to unambiguous classes; a null "
+    "@skip/@include condition and unbound variables inside custom scalar literals are outside the comparison.",
+    "DESIGN.md 3/C02",
+)
+CLAIMED["C13"] = (
+    "validity-predicate oracle: documents accepted by validate() (type-directed plus accepted near-valid "
+    "mutants of 12 kinds) executed over conforming and faulty oracle data; shape checker and error "
+    "attribution against the reference executor's fault positions",
+    "With conforming data an accepted document with accepted variables executes without errors (except the "
+    "nullable-variable-with-default-into-non-null case the specification defers to run time) and the response "
+    "has exactly the prescribed shape for the runtime types present; with arbitrary data every error sits at a "
+    "position where the data oracle planted a fault or a null - an error caused by an argument, variable or "
+    "field is a violation (this is where a too-permissive validation rule shows).",
+    "Only accepted documents are executed; the mutation catalogue decides which validation holes are reachable.",
+    "DESIGN.md 3/C13",
+)
 PENDING_REASON = (
     "check under construction in this session (DESIGN.md section 3 has its design); it is not claimed "
     "until it has run quietly on the unchanged tree at several seeds"
